@@ -45,7 +45,14 @@ StrictTotalObs(fn) ==
   /\ (O(fn).ab < 0 /\ O(fn).bc < 0) => O(fn).ac < 0
   /\ (O(fn).ab > 0 /\ O(fn).bc > 0) => O(fn).ac > 0
 
-C19_HashStrictTotal == IsTri => StrictTotalObs("HASH")
+\* irreflexive on ENTRIES, whatever object holds them: two objects with the same clock and the same hash are one entry
+\* (a copy read back from the store, a replica's copy), and neither is ordered before the other
+IrreflexiveObs(fn) ==
+  /\ O(fn).aa = 0
+  /\ ~distinctAB => O(fn).ab = 0 /\ O(fn).ba = 0
+  /\ ~distinctBC => O(fn).bc = 0 /\ O(fn).cb = 0
+  /\ ~distinctAC => O(fn).ac = 0 /\ O(fn).ca = 0
+C19_HashStrictTotal == IsTri => StrictTotalObs("HASH") /\ IrreflexiveObs("HASH")
 
 ClocksDistinct(x, y) == x.t # y.t \/ x.w # y.w
 C19_LwwIsHashWhenClocksDistinct ==
